@@ -28,6 +28,14 @@
 //   rabin.encrypt m ownsig value r olog => enctext
 //   rabin.decrypt m p q ownsig enctext olog => value | reject
 //   rabin.check pubkeytext pp fuel olog => 0/1 | reject(import failed)       pp = mpz_probab_prime_p(m,500) != 0
+// Model-independent records for the Python predicate of C10 (passed through by the Lean driver):
+//   prop.rabin sign bits=L len=N tag:honest => 0/1                     verdict of verify on the fresh signature
+//   prop.rabin verify bits=L <tag> => 0/1                             one per rabin.verify line
+//   prop.rabin decrypt bits=L expect=<value|none> <tag> => value|reject   one per rabin.decrypt line
+//   prop.rabin check nizk=0/1 <tag> => 0/1|reject                     one per rabin.check line
+//   prop.rabin roundtrip value=V => result ; prop.rabin sqrtmp / sqrtmn … (root² = a counts)
+//   expected verdicts: tag:honest, tag:equiv:*, tag:short:* accept (decrypt: result = expect); tag:mut:*, tag:cheat:*,
+//   tag:guard:* refuse; tag:resigned:* are judged individually (the holder of the secret key re-signed the key).
 #include "common.hh"
 #include <memory>
 #include <set>
@@ -207,6 +215,8 @@ static bool do_verify(TMCG_PublicKey &pk, const std::string &data, const std::st
 	coins.take();
 	std::string ol = cap_olog([&](const std::string &) { return mn > MD ? mn - MD : 0; }, &data);
 	emit("rabin.verify " + zs(pk.m) + " " + hexs(pk.sig) + " " + hexs(data) + " " + hexs(sig) + " " + ol + " " + tag + " => " + b2s(ok));
+	// model-independent record for the Python predicate of C10: class of the case and the library's verdict
+	emit("prop.rabin verify bits=" + std::to_string(mpz_sizeinbase(pk.m, 2)) + " " + tag + " => " + b2s(ok));
 	return ok;
 }
 static std::string do_encrypt(TMCG_PublicKey &pk, const std::string &value, const std::string &tag, std::string *rout = NULL)
@@ -220,7 +230,7 @@ static std::string do_encrypt(TMCG_PublicKey &pk, const std::string &value, cons
 	emit("rabin.encrypt " + zs(pk.m) + " " + hexs(pk.sig) + " " + hexs(value) + " " + hexs(r) + " " + ol + " " + tag + " => " + hexs(s));
 	return s;
 }
-static std::string do_decrypt(const TMCG_SecretKey &sk, const std::string &text, const std::string &tag)
+static std::string do_decrypt(const TMCG_SecretKey &sk, const std::string &text, const std::string &tag, const std::string &expect = "")
 {
 	unsigned char out[S0]; memset(out, 0, sizeof out);
 	cap_start();
@@ -229,12 +239,14 @@ static std::string do_decrypt(const TMCG_SecretKey &sk, const std::string &text,
 	std::string ol = cap_olog([&](const std::string &) { return 2 * S0; }, NULL);
 	std::string res = ok ? hexs(out, S0) : "reject";
 	emit("rabin.decrypt " + zs(sk.m) + " " + zs(sk.p) + " " + zs(sk.q) + " " + hexs(sk.sig) + " " + hexs(text) + " " + ol + " " + tag + " => " + res);
+	// model-independent record: class of the case, the value that was encrypted (if any), the library's result
+	emit("prop.rabin decrypt bits=" + std::to_string(mpz_sizeinbase(sk.m, 2)) + " expect=" + (expect.empty() ? std::string("none") : hexs(expect)) + " " + tag + " => " + res);
 	return res;
 }
 static std::string do_check(const std::string &text, const std::string &tag)
 {
 	TMCG_PublicKey pk;
-	if (!pk.import(text)) { emit("rabin.check " + hexs(text) + " 0 0 [] " + tag + " => reject"); return "reject"; }
+	if (!pk.import(text)) { emit("rabin.check " + hexs(text) + " 0 0 [] " + tag + " => reject"); emit("prop.rabin check nizk=0 " + tag + " => reject"); return "reject"; }
 	size_t mn = mnsize_of(pk.m);
 	std::string data = selfdata(pk);
 	int pp = mpz_probab_prime_p(pk.m, 500) ? 1 : 0;
@@ -243,6 +255,7 @@ static std::string do_check(const std::string &text, const std::string &tag)
 	coins.take();
 	std::string ol = cap_olog([&](const std::string &x) { return (x.size() == MD) ? (mn > MD ? mn - MD : 0) : mn; }, &data);
 	emit("rabin.check " + hexs(text) + " " + std::to_string(pp) + " " + std::to_string(last_gqueries + 4) + " " + ol + " " + tag + " => " + b2s(ok));
+	emit("prop.rabin check nizk=" + b2s(pk.type.find("NIZK") != pk.type.npos) + " " + tag + " => " + b2s(ok));
 	return b2s(ok);
 }
 static void do_import_pub(const std::string &text, const std::string &tag)
@@ -347,7 +360,7 @@ static void sign_case(SplitMix &g, KeyCtx &k, KeyCtx &other, size_t len, bool fu
 	std::string data = rand_bytes(g, len);
 	if (g.below(4) == 0) for (auto &c : data) c = (char)('a' + ((unsigned char)c % 26));
 	std::string s = do_sign(sk, data, "tag:honest");
-	do_verify(pk, data, s, "tag:honest");
+	emit("prop.rabin sign bits=" + std::to_string(k.L) + " len=" + std::to_string(len) + " tag:honest => " + b2s(do_verify(pk, data, s, "tag:honest")));
 	{ TMCG_SecretKey &skc = sk; cap_start(); bool ok = skc.verify(data, s); coins.take(); hashlog.log = false; hashlog.clear();
 	  emit("prop.rabin secretkey.verify => " + b2s(ok)); }
 	if (!full) return;
@@ -393,14 +406,14 @@ static void enc_case(SplitMix &g, KeyCtx &k, KeyCtx &other, bool full)
 	switch (g.below(6)) { case 0: value.assign(S0, 0); break; case 1: value.assign(S0, (char)0xff); break; default: break; }
 	std::string r;
 	std::string c = do_encrypt(pk, value, "tag:honest", &r);
-	std::string res = do_decrypt(sk, c, "tag:honest");
+	std::string res = do_decrypt(sk, c, "tag:honest", value);
 	emit("prop.rabin roundtrip value=" + hexs(value) + " => " + res);
 	{ cap_start(); std::string c2 = sk.encrypt((const unsigned char*)value.data()); coins.take(); hashlog.log = false; hashlog.clear();
-	  emit("prop.rabin secretkey.encrypt => " + do_decrypt(sk, c2, "tag:honest")); }
+	  emit("prop.rabin secretkey.encrypt => " + do_decrypt(sk, c2, "tag:honest", value)); }
 	if (!full) return;
 	Parts p = split3(c); Z v; mpz_set_str(v, p.val.c_str(), TMCG_MPZ_IO_BASE);
-	for (auto &mv : value_mutations(g, v, sk.m, false)) { Parts q = p; q.val = mv.first; do_decrypt(sk, join3(q), mv.second); }
-	for (auto &mv : frame_mutations(c, pk, *other.pk)) do_decrypt(sk, mv.first, mv.second);
+	for (auto &mv : value_mutations(g, v, sk.m, false)) { Parts q = p; q.val = mv.first; do_decrypt(sk, join3(q), mv.second, value); }
+	for (auto &mv : frame_mutations(c, pk, *other.pk)) do_decrypt(sk, mv.first, mv.second, value);
 	// the encoded value shifted by a multiple of 256^rabin_s: a different ciphertext anyone can compute
 	{
 		size_t rs = mpz_sizeinbase(sk.m, 2) / 8;
@@ -412,12 +425,12 @@ static void enc_case(SplitMix &g, KeyCtx &k, KeyCtx &other, bool full)
 		for (int kk = 1; kk < 8; kk++) {
 			mpz_add(x, x, step); if (mpz_cmp(x, sk.m) >= 0) break;
 			mpz_mul(c2, x, x); mpz_mod(c2, c2, sk.m);
-			Parts q = p; q.val = s62(c2); do_decrypt(sk, join3(q), "tag:cheat:c:highbits" + std::to_string(kk));
+			Parts q = p; q.val = s62(c2); do_decrypt(sk, join3(q), "tag:cheat:c:highbits" + std::to_string(kk), value);
 		}
 	}
 	// other key
-	do_decrypt(*other.sk, c, "tag:mut:key:other");
-	{ Parts q = p; q.kid = other.pk->keyid(); do_decrypt(*other.sk, join3(q), "tag:mut:key:other+keyid"); }
+	do_decrypt(*other.sk, c, "tag:mut:key:other", value);
+	{ Parts q = p; q.kid = other.pk->keyid(); do_decrypt(*other.sk, join3(q), "tag:mut:key:other+keyid", value); }
 }
 
 // key text: fields name|email|type|m|y|nizk|sig
